@@ -29,7 +29,9 @@ def nontrivial(req, obs):
 
 PROP = {
     "id": "C17",
-    "lean_targets": ["WmModel.Props.C17", "WmModel.Props.C17Tie"],
+    "lean_targets": ["WmModel.Props.C17", "WmModel.Props.C17Tie", "WmModel.Props.C17Router", "WmModel.Props.C02Tie"],
+    # the settle rule applied to the handlers' errors is derived from the handleMessage model: its body is re-extracted and its tie re-proved here too
+    "extract_also": ["C02"],
     "audit_module": "Audit.C17",
     "theorems": [
         "Wm.Relay.atoi_itoa", "Wm.Relay.atoi_range",
@@ -43,9 +45,12 @@ PROP = {
         "Wm.Relay.forwarder_end_to_end",
         "Wm.Relay.ack_after_destination", "Wm.Relay.nack_on_destination_failure_requeuer", "Wm.Relay.settle_last",
         "Wm.Relay.stream_eq_map", "Wm.Relay.stream_accepted_eq_acked", "Wm.Relay.relay_streams", "Wm.Relay.requeuer_streams",
+        # the Router settle rule derived from the C02/C03 models (Props/C17Router.lean)
+        "Wm.GoRelay.relay_settle_rule_eq_handle", "Wm.GoRelay.rqRun_settle_eq_handle", "Wm.GoRelay.fwRun_settle_eq_handle",
     ],
     "tie_theorems": ["Wm.GoRelay.extracted_requeuer_eq_model", "Wm.GoRelay.extracted_unwrap_eq_model",
-                     "Wm.GoRelay.extracted_forward_eq_model"],
+                     "Wm.GoRelay.extracted_forward_eq_model",
+                     "Wm.GoHandle.handle_skeleton_eq_model", "Wm.GoHandle.publish_skeleton_eq_model"],
     "harness": "c17",
     "race": True,
     "driver": "drv_c17",
